@@ -766,7 +766,10 @@ func (i *IRCServer) TrustedBridge(authHeader string) string {
 func (i *IRCServer) captchaConfigured() bool {
 	i.ConfigMu.RLock()
 	defer i.ConfigMu.RUnlock()
-	return i.Config.CaptchaURL != "" && i.Config.CaptchaHMACSecret != nil
+	// An empty secret is as good as none: after restoring a snapshot (and
+	// after decoding CaptchaHMACSecret = "") the secret is an empty, but
+	// non-nil slice.
+	return i.Config.CaptchaURL != "" && len(i.Config.CaptchaHMACSecret) > 0
 }
 
 func (i *IRCServer) captchaRequiredForLogin() bool {
